@@ -110,3 +110,11 @@ Theorem C13_purge_pass_current_refuted :
   exists (t : ptable) (id : N), In id (pt_deleted t) /\ In id (visible_ids (purge_pass false t)).
 Proof. exists (mkPT [(true, [1; 2; 3]); (false, [2; 4])] [2]), 2. vm_compute. split; [left | right; left]; reflexivity. Qed.
 Print Assumptions C13_purge_pass_current_refuted.
+
+(* ---- what the guard of the finalisation is for (C13/Phases.v): were the Drop command applied right after the mark, a file of the
+   dropped object would be visible in the object created next under the same name *)
+From OG Require Import C13.Phases.
+Theorem C13_phases_unguarded_finalisation_refuted :
+  exists (os : list pstep) (x : N), In x (pvisible (prun false (p0 1) os)) /\ x <> ps_inc (prun false (p0 1) os).
+Proof. exists [PCreate; PWrite 0; PMark; PFinalize; PCreate], 1. vm_compute. split; [left; reflexivity | discriminate]. Qed.
+Print Assumptions C13_phases_unguarded_finalisation_refuted.
